@@ -986,6 +986,30 @@ pub fn run_scenario(sc: &Scenario, domain: u16, prop: SProp, acc: &mut Acc, tag:
       SEv::CreateLocal { k } => {
         sigbuf.push(8);
         let (is_writer, q) = sc.late[*k].clone();
+        // The new endpoint is matched with everything already announced on its topic in one go, faster than
+        // anybody can drain its status channel, which holds 4 events and drops the rest (documented as lossy).
+        // The check's assumption "at most 4 status events per endpoint and step" has to hold here too.
+        {
+          let li = if is_writer { scx.writer_q.len() } else { scx.reader_q.len() };
+          // the participant's own endpoints of the other kind on that topic are matched at once as well
+          let n_own = if is_writer { scx.reader_q.len() } else { scx.writer_q.len() };
+          let mut burst = (0..n_own).filter(|o| o % 2 == li % 2).count();
+          for f in 0..fakes.len() {
+            if !alive[f] {
+              continue;
+            }
+            for e in 0..sc.eps[f].len() {
+              let ep = &sc.eps[f][e];
+              if ep.is_writer != is_writer && ep.topic == li % 2 && announced.contains(&guid_of(f, e, &fakes)) {
+                burst += 1;
+              }
+            }
+          }
+          if burst > 4 {
+            acc.count("late_local_endpoint_not_created_more_than_4_status_events_would_arrive_at_once", 1);
+            continue;
+          }
+        }
         match local.add_late(is_writer, &q) {
           Ok(_) => {
             if is_writer {
